@@ -273,6 +273,38 @@ pub fn record(seed: u64, tier: &str, out_path: &str) {
         writeln!(out, "{}", e).unwrap();
         events += 2;
     }
+    // SCALE: the reporter merging snapshots of tens of thousands of addresses in one pass (the small limits above never
+    // reach a per-pass budget, a chunk size, a counter width): every pushed entry is merged, every per-address sum kept
+    {
+        let plant = &mut plants[2];
+        let template: ClientStats = { let mut p = PerClientStats::new(); p.add_ietf_request(&addr(1)); let c = p.iter().map(|(_, s)| *s).next().unwrap(); c };
+        let ip_of = |k: u32| -> IpAddr { IpAddr::V4(std::net::Ipv4Addr::from(0x0a00_0000u32 + k)) };
+        for sizes in [vec![60_000u32, 60_000, 7], vec![99_999, 2, 1], vec![100_000, 1], vec![4_096, 4_097, 8_193, 20_000]] {
+            plant.reset();
+            let mut next = 1u32;
+            let mut pushed_entries = 0u64;
+            let mut pushed_sum = 0u64;
+            let nsnap = sizes.len();
+            for (si, n) in sizes.iter().enumerate() {
+                // (the last snapshot repeats addresses of the first: the same client seen by another worker)
+                let start = if si + 1 == nsnap && si > 0 { 1 } else { next };
+                let snap: Vec<ClientStats> = (0..*n).map(|j| { let mut c = template; c.ip_addr = ip_of(start + j); c.rfc_requests = 1 + (j % 3); c }).collect();
+                pushed_entries += snap.len() as u64;
+                pushed_sum += snap.iter().map(|c| c.rfc_requests as u64).sum::<u64>();
+                if !(si + 1 == nsnap && si > 0) { next += *n; }
+                plant.queue.force_push(snap);
+            }
+            let distinct = (next - 1).max(if nsnap > 1 { sizes[nsnap - 1] } else { 0 }) as u64;
+            // (as many passes as it takes to empty the queue: a reporter may spread the work, it may not lose any)
+            let r = guarded(|| { let mut passes = 0; loop { plant.reporter.receive_client_stats(); passes += 1; if plant.queue.is_empty() || passes >= 10 { break; } } });
+            let merged = plant.reporter.verif_client_stats();
+            let merged_sum: u64 = merged.iter().map(|c| c.rfc_requests as u64).sum();
+            writeln!(out, "{}", json!({"ev": "bulk_merge", "snapshots": sizes, "pushed_entries": pushed_entries, "distinct": distinct, "pushed_sum": pushed_sum,
+                "merged": merged.len(), "merged_sum": merged_sum, "left_in_queue": plant.queue.len(), "panic": r.is_err()})).unwrap();
+            events += 1;
+            plant.reset();
+        }
+    }
     let _ = std::fs::remove_dir_all(format!("{}.persist", out_path));
     out.flush().unwrap();
     println!("{}", json!({"rec": "summary", "events": events}));
